@@ -180,6 +180,17 @@ class _Found(Exception):
     pass
 
 
+def escaped_from_library(e):
+    """If exception *e* was raised from inside the library under test (innermost
+    frames lie under .../unyt/), return 'Type@function', else None (harness bug)."""
+    tb = traceback.extract_tb(e.__traceback__)
+    last_verif = max((i for i, f in enumerate(tb) if "/verif/" in f.filename), default=-1)
+    lib = [f for f in tb[last_verif + 1:] if "/unyt/" in f.filename]
+    if not lib:
+        return None
+    return f"{type(e).__name__}@{lib[-1].name}"
+
+
 def hyp_explore(part, known, strategy, case_fn, n, seed, max_roots=MAX_ROOTS, shrink=True,
                 label=""):
     """Run ``case_fn(case, part) -> iterable[(key, detail)]`` over ``n`` generated
@@ -200,7 +211,15 @@ def hyp_explore(part, known, strategy, case_fn, n, seed, max_roots=MAX_ROOTS, sh
             if not state.get("shrinking"):
                 state["count"] += 1
             probe = Part()
-            out = list(case_fn(case, probe) or [])
+            try:
+                out = list(case_fn(case, probe) or [])
+            except (_Found, HarnessError):
+                raise
+            except Exception as e:
+                esc = escaped_from_library(e)
+                if esc is None:
+                    raise
+                out = [(f"{label or 'case'}:exception-escaped:{esc}", {"error": f"{type(e).__name__}: {e}"[:300]})]
             new = []
             for key, detail in out:
                 if key in ignored:
